@@ -188,15 +188,15 @@ def build_kd_graph_case(cls, prop="C01"):
         inv0.update({("Build_mesh_kd", 1): mk(1), ("Build_mesh_kd", 2): mk(2), ("Build_mesh_kd", 3): mk(3)})
 
         def at_store(want, what):
-            # assert-then-assume at the store of the Skolem slot: the identity of rational functions is decided on the path
-            # where (i, s, n) = (i0, s0, n0) holds as hypotheses, and is then available to the loop invariant
+            # assert-then-assume at the store of the Skolem slot, as an implication whose premises (i, s, n) = (i0, s0, n0) are
+            # used by the rational-function back end (no path split)
             def chk(I_, o_, fr, v, idx):
                 i, s_, n = L(fr, "i"), L(fr, "s"), L(fr, "n")
                 if i is None or s_ is None or n is None:
                     return None
-                if c.branch(z3.And(i == i0, s_ == s0, n == n0)):
-                    c.oblige(P + "/store-of-the-%s-constant-of-the-chosen-slot" % what, v == want)
-                    c.assume(v == want)
+                fact = z3.Implies(z3.And(i == i0, s_ == s0, n == n0), v == want)
+                c.oblige(P + "/store-of-the-%s-constant-of-the-chosen-slot" % what, fact)
+                c.assume(fact)
                 return None
             return chk
         I.store_checks = dict(I.store_checks)
@@ -208,7 +208,7 @@ def build_kd_graph_case(cls, prop="C01"):
         c.oblige(P + "/every-slot: incoming constant = Dij x surface / (neighbour volume x distance)", entry(Frame("x", o), "mesh_kd_in") == want_in)
 
     return Case("engine/%s/Build_mesh_kd" % cls, run, functions=["%s::Build_mesh_kd" % cls], conc=False, max_paths=3000,
-                thorough_only=True, note="about 6 minutes (feasibility queries over non-linear constants): thorough tier only")
+                note="about 2 minutes")
 
 
 def reaction_rate_case(cls, prop="C01"):
@@ -245,6 +245,15 @@ def reaction_rate_case(cls, prop="C01"):
     return Case("engine/%s/ReactionRate" % cls, run, functions=["%s::ReactionRate" % cls], conc=False)
 
 
+def _dispatch_proxy(space, mode, option):
+    """C14's dispatch case, imported when the case runs (C14 -> C11 -> C04 -> C01 would be a cycle at import time)"""
+    def run(api):
+        from props import C14
+        return C14.dispatch_case(space, mode, option).fn(api)
+    return Case("dispatch/%s/%s/%s" % (space, mode, option), run, functions=["engineexport_initialize_" + space], conc=False,
+                max_paths=4000)
+
+
 def cases(prop="C01"):
     if z3 is None:
         return []
@@ -254,4 +263,7 @@ def cases(prop="C01"):
         out.append(reaction_rate_case(cls, prop))
     out.append(build_kd_grid_case("Euler3D", prop))
     out.append(build_kd_graph_case("EulerGraph", prop))
+    # the exported set-up functions hand every array and scalar to the Init parameter of the same name (C14's dispatch case)
+    out.append(_dispatch_proxy("grid", "none", "euler"))
+    out.append(_dispatch_proxy("graph", "none", "euler"))
     return out
